@@ -20,5 +20,29 @@ PROPS = {
  },
 }
 
+CODEC_ASSUME = [
+    "Go values are modelled by [gval] (nil and empty slices/[]byte identified; nil map distinct from empty map; pointers explicit); the read buffer by its unread suffix",
+    "unsafe pointer arithmetic is modelled at the level of values (destination passing); field offsets become struct field indices",
+    "map iteration order is recovered from the bytes; comparisons canonicalise maps (last write wins, sorted by key) and compare NaN payloads only as NaN",
+    "registry = time.RegisterCodecs + null.RegisterCodecs (the harness registers both at start)",
+]
+
+PROPS["C03"] = {
+  "module": "Avro.Corr.Codec",
+  "rule": "spec-side generator (harness/gs.go, written from the Avro spec): random record schema depth<=4 over null,boolean,int,long,float,double,bytes,string,fixed,record,array,map, unions [null,X],[X,null],[X], 3-branch; random datum; random writer choices (block cuts, sized/unsized); encoded by the harness's own spec encoder, which is itself checked against the model's spec_encode and reference decoder (KSpecEnc); decoded by the library into a random compatible Go struct type (pointer indirection 0-2, int16/32/64/int, float32/64, null.* wrappers, fields dropped/permuted/added) and skipped; every 4th case also as a container file with random block partition (empty blocks included), codec in {absent,null,deflate,snappy}, split metadata. Distinct by (encoding, target) key; KSpecEnc and read/skip cases all non-trivial.",
+  "trusted_base": COMMON_TB,
+  "level_text": "Theorem C03_reader_complete (closed under the global context): for every registry, schema, Go type, codec built by the model of buildCodec, every byte string the strict reference decoder (written from the spec; verifies block byte sizes, canonical varints) accepts as datum d with rest r, and every destination: c_read returns exactly apply_datum c dest d (a function of the datum only) and rest r. All codecs of the library are covered (primitives, record, array, map, pointer, the three union codecs, time and null.* wrappers, custom). C03_no_truncation: a successful integer read fits the destination width. Not yet proved in Coq: that spec_encode with every choice tree is accepted by the reference decoder (theorem S; checked per case by KSpecEnc), and the lift through the container layer (checked differentially).",
+  "level_note": "Trusted: Coq kernel; the hand-written model of build.go and all Read methods, tied to the code by ~800 differential cases per quick run (decoded values, remaining length, outcome class); harness generators and its conv oracle; Go toolchain. No axioms.",
+  "assumptions": CODEC_ASSUME,
+}
+PROPS["C04"] = {
+  "module": "Avro.Corr.Codec",
+  "rule": "same spec-side generator as C03; each encoding is decoded into three targets (two random compatible projections with fields dropped/permuted/added, and a struct with no matching field) and skipped through each target's codec; compared: Skip's remaining length vs the encoding's end, decoded projections vs the harness's conv, and both against the model.",
+  "trusted_base": COMMON_TB,
+  "level_text": "Theorems C04_skip_exact and C04_skip_equals_read (closed under the global context): for every codec the model of buildCodec returns (any registry, schema, Go type or none) and every byte string the strict reference decoder accepts, Skip stops exactly where the encoding ends, and that is where Read stops; this includes the size-prefixed block fast path, nested records, maps of arrays, all three union codecs. Proved by a generic lemma on the block loop (skipping lands where strict decoding does) plus induction over the codec tree.",
+  "level_note": "Trusted: Coq kernel; the model of every Skip/Read method and of buildCodec, tied to the code by ~1500 differential cases per quick run; harness generators. The projection clause (values of remaining fields unchanged) is checked by the direct oracle and the model comparison on every case; its Coq statement over field lists is listed as future work in DESIGN.md. No axioms.",
+  "assumptions": CODEC_ASSUME,
+}
+
 NOT_YET = {}
 HOOK_COMMITS = []
